@@ -41,6 +41,10 @@ def one_template(c):
         rec["attr"] = rp.disambiguated_field
     except Exception as e:  # noqa
         rec["attr"] = err(e)
+    try:
+        rec["sample_request"] = rp.sample_request
+    except Exception as e:  # noqa
+        rec["sample_request"] = err(e)
     ms = []
     for v in c.get("values", []):
         if rx is None or not isinstance(rec["key"], str):
